@@ -5,6 +5,8 @@ Import ListNotations.
 
 Arguments MaxStack : simpl never.
 Arguments MaxFrames : simpl never.
+Arguments polled : simpl never.
+Arguments halt_res : simpl never.
 
 Ltac inv H := inversion H; subst; clear H.
 
@@ -400,3 +402,368 @@ Section EvalFacts.
       right. replace (sGates s1) with (sGates s2) by (symmetry; apply R). apply spin_rel; auto.
   Qed.
 End EvalFacts.
+
+(* ------------------------------------------------------------------ the halt-flag invariant *)
+Lemma mem_cons n m l : mem n (m :: l) = Nat.eqb n m || mem n l.
+Proof. reflexivity. Qed.
+
+(* every watcher points to an allocated cell; a cell holds 1 only because a watcher whose context is
+   cancelled stored it *)
+Definition env_ok (e : env) : Prop :=
+  (forall w c k, nth_error (watchers e) w = Some (c, k) -> k < ncells e) /\
+  (forall k, cell_set e k = true ->
+     exists w c, nth_error (watchers e) w = Some (c, k) /\ is_cancelled e c = true).
+
+(* during a run that polls cell k0 under context cx: only watchers of cx point to k0 *)
+Definition run_ok (k0 cx : nat) (e : env) : Prop :=
+  env_ok e /\ (forall w c, nth_error (watchers e) w = Some (c, k0) -> c = cx).
+
+Lemma env_ok_0 : env_ok env0.
+Proof.
+  split.
+  - intros w c k X. destruct w; discriminate.
+  - intros k X. discriminate.
+Qed.
+
+Lemma do_ev_watchers x e : watchers (do_ev x e) = watchers e.
+Proof.
+  destruct x; cbn; auto. unfold do_fire.
+  destruct (nth_error (watchers e) w) as [[c k]|]; auto.
+  destruct (is_cancelled e c && negb (mem w (fired e))); auto.
+Qed.
+Lemma do_ev_ncells x e : ncells (do_ev x e) = ncells e.
+Proof.
+  destruct x; cbn; auto. unfold do_fire.
+  destruct (nth_error (watchers e) w) as [[c k]|]; auto.
+  destruct (is_cancelled e c && negb (mem w (fired e))); auto.
+Qed.
+Lemma do_ev_cancel_mono x e c : is_cancelled e c = true -> is_cancelled (do_ev x e) c = true.
+Proof.
+  intros A. destruct x; cbn.
+  - unfold is_cancelled, mem in *. cbn. rewrite A. apply orb_true_r.
+  - unfold do_fire. destruct (nth_error (watchers e) w) as [[c' k]|]; auto.
+    destruct (is_cancelled e c' && negb (mem w (fired e))); auto.
+Qed.
+
+Lemma do_ev_ok x e : env_ok e -> env_ok (do_ev x e).
+Proof.
+  intros [A B]. split.
+  - intros w c k X. rewrite do_ev_watchers in X. rewrite do_ev_ncells. eauto.
+  - intros k X. destruct x as [c0|w0].
+    + cbn in *. unfold cell_set in *. cbn in X. destruct (B k X) as (w & c & W & C).
+      exists w, c. split; auto. apply (do_ev_cancel_mono (Cancel c0)); auto.
+    + cbn in *. unfold do_fire in *.
+      destruct (nth_error (watchers e) w0) as [[c' k']|] eqn:EW; [|apply B; auto].
+      destruct (is_cancelled e c' && negb (mem w0 (fired e))) eqn:EC; [|apply B; auto].
+      unfold cell_set in X. cbn [setcells] in X. rewrite mem_cons in X. apply orb_true_iff in X. destruct X as [X|X].
+      * apply Nat.eqb_eq in X. subst k'. exists w0, c'. cbn. split; auto.
+        apply andb_true_iff in EC. apply EC.
+      * destruct (B k X) as (w & c & W & C). exists w, c. cbn. split; auto.
+Qed.
+
+Lemma do_ev_run_ok k0 cx x e : run_ok k0 cx e -> run_ok k0 cx (do_ev x e).
+Proof.
+  intros [A B]. split. apply do_ev_ok; auto. intros w c X. rewrite do_ev_watchers in X. eauto.
+Qed.
+Lemma do_evs_run_ok k0 cx xs : forall e, run_ok k0 cx e -> run_ok k0 cx (do_evs xs e).
+Proof.
+  unfold do_evs. induction xs as [|x xs IH]; intros e A; cbn; auto. apply IH. apply do_ev_run_ok; auto.
+Qed.
+Lemma do_evs_ok xs : forall e, env_ok e -> env_ok (do_evs xs e).
+Proof.
+  unfold do_evs. induction xs as [|x xs IH]; intros e A; cbn; auto. apply IH. apply do_ev_ok; auto.
+Qed.
+
+Lemma polled_own k0 cx s : run_ok k0 cx (sE s) -> polled (Some k0) s = true -> halt_res cx s = RE ECtx.
+Proof.
+  intros [[A B] C] P. unfold polled in P. destruct (B _ P) as (w & c & W & X).
+  apply C in W. subst c. unfold halt_res. rewrite X. reflexivity.
+Qed.
+
+Section NoSilent.
+  Variable cfg : config.
+  Variable k0 cx : nat.
+  Notation ev := (eval cfg (Some k0) cx).
+
+  Definition nsil (p : res * st) : Prop := fst p <> RHaltNil /\ run_ok k0 cx (sE (snd p)).
+
+  Lemma nsil_push z s : run_ok k0 cx (sE s) -> nsil (push_val cfg z s).
+  Proof.
+    intros A. unfold push_val. destruct (sH s <? MaxStack); split; cbn; try discriminate; auto.
+    destruct (push_guard cfg); auto.
+  Qed.
+
+  Lemma nsil_halt s : run_ok k0 cx (sE s) -> polled (Some k0) s = true -> nsil (halt_res cx s, s).
+  Proof. intros A P. split; cbn; auto. rewrite (polled_own _ _ _ A P). discriminate. Qed.
+
+  Lemma spin_nsil gs : forall s, run_ok k0 cx (sE s) -> nsil (spin (Some k0) cx gs s).
+  Proof.
+    induction gs as [|xs gs IH]; intros s A; cbn [spin].
+    - destruct (polled (Some k0) s) eqn:P.
+      + split; cbn; auto. rewrite (polled_own _ _ _ A P). discriminate.
+      + split; cbn; auto. discriminate.
+    - destruct (polled (Some k0) s) eqn:P.
+      + split; cbn; auto. rewrite (polled_own _ _ _ A P). discriminate.
+      + apply IH. cbn. apply do_evs_run_ok; auto.
+  Qed.
+
+  Lemma resume_E bh bf s : sE (snd (resume bh bf s)) = sE s.
+  Proof. unfold resume. destruct (bh <? sH s); [destruct (MaxStack <? sH s)|]; reflexivity. Qed.
+
+  Lemma call_fn_nsil (body : st -> res * st) s :
+    run_ok k0 cx (sE s) ->
+    (forall t, run_ok k0 cx (sE t) -> nsil (body t)) ->
+    nsil (call_fn (Some k0) cx body s).
+  Proof.
+    intros A IH. unfold call_fn.
+    destruct (MaxFrames <=? S (sFP s)).
+    - pose proof (resume_E (sH s) (sFP s) (setHF s (sH s) (S (sFP s)))) as RE.
+      destruct (resume (sH s) (sFP s) (setHF s (sH s) (S (sFP s)))) as [p t]. cbn in *.
+      split; cbn; try discriminate. rewrite RE. auto.
+    - specialize (IH (setHF s (sH s) (S (sFP s))) A).
+      destruct (body (setHF s (sH s) (S (sFP s)))) as [r s1]. destruct IH as [I1 I2]. cbn in I1, I2.
+      pose proof (resume_E (sH s) (sFP s) s1) as RE.
+      destruct (resume (sH s) (sFP s) s1) as [p s2]. cbn in RE.
+      destruct r; cbn.
+      + destruct (polled (Some k0) s1) eqn:P.
+        * split; cbn; [|rewrite RE; auto]. rewrite (polled_own _ _ _ I2 P). destruct p; discriminate.
+        * split; cbn; auto; discriminate.
+      + split; cbn; [destruct p; discriminate|rewrite RE; auto].
+      + split; cbn; [discriminate|rewrite RE; auto].
+      + congruence.
+      + split; cbn; [discriminate|auto].
+  Qed.
+
+  Lemma eval_nsil e : forall s, run_ok k0 cx (sE s) -> nsil (ev e s).
+  Proof.
+    induction e; intros s A; cbn [eval]; unfold poll_then.
+    - destruct (polled (Some k0) s) eqn:P; [apply nsil_halt|apply nsil_push]; auto.
+    - destruct (polled (Some k0) s) eqn:P; [apply nsil_halt|apply nsil_push]; auto.
+    - destruct (polled (Some k0) s) eqn:P; [apply nsil_halt|apply nsil_push]; auto.
+    - specialize (IHe1 s A). destruct (ev e1 s) as [r1 s1]. destruct IHe1 as [I1 I2]. cbn in I1, I2.
+      destruct r1; try (split; cbn; auto; discriminate).
+      specialize (IHe2 s1 I2). destruct (ev e2 s1) as [r2 s2]. destruct IHe2 as [J1 J2]. cbn in J1, J2.
+      destruct r2; try (split; cbn; auto; discriminate).
+      destruct (polled (Some k0) s2) eqn:P; [apply nsil_halt; auto|].
+      destruct (pop1 s2) as [s3|] eqn:P1; [|split; cbn; auto; discriminate].
+      assert (E3 : sE s3 = sE s2).
+      { unfold pop1 in P1. destruct ((sH s2 =? 0) || (MaxStack <? sH s2)); inv P1. reflexivity. }
+      destruct (pop1 s3) as [s4|] eqn:P2; [|split; cbn; [discriminate|rewrite E3; auto]].
+      assert (E4 : sE s4 = sE s3).
+      { unfold pop1 in P2. destruct ((sH s3 =? 0) || (MaxStack <? sH s3)); inv P2. reflexivity. }
+      apply nsil_push. rewrite E4, E3. auto.
+    - specialize (IHe1 s A). destruct (ev e1 s) as [r1 s1]. destruct IHe1 as [I1 I2]. cbn in I1, I2.
+      destruct r1; try (split; cbn; auto; discriminate).
+      destruct (polled (Some k0) s1) eqn:P; [apply nsil_halt; auto|].
+      destruct (pop1 s1) as [s3|] eqn:P1; [|split; cbn; auto; discriminate].
+      assert (E3 : sE s3 = sE s1).
+      { unfold pop1 in P1. destruct ((sH s1 =? 0) || (MaxStack <? sH s1)); inv P1. reflexivity. }
+      apply IHe2. rewrite E3. auto.
+    - destruct (polled (Some k0) s) eqn:P; [apply nsil_halt; auto|].
+      destruct (sH s + n <=? MaxStack); [|split; cbn; auto; discriminate].
+      specialize (IHe (setH s (sH s + n)) A). destruct (ev e (setH s (sH s + n))) as [r1 s1].
+      destruct IHe as [I1 I2]. cbn in I1, I2.
+      destruct r1; try (split; cbn; auto; discriminate).
+      destruct (polled (Some k0) s1) eqn:P'; [apply nsil_halt; auto|]. apply nsil_push. auto.
+    - destruct (polled (Some k0) s) eqn:P; [apply nsil_halt; auto|].
+      pose proof (call_fn_nsil (ev e) s A IHe) as C.
+      destruct (call_fn (Some k0) cx (ev e) s) as [r s1]. destruct C as [C1 C2]. cbn in C1, C2.
+      destruct r; try (split; cbn; auto; discriminate). apply nsil_push; auto.
+    - destruct (polled (Some k0) s) eqn:P; [apply nsil_halt; auto|]. split; cbn; auto; discriminate.
+    - destruct (polled (Some k0) s) eqn:P; [apply nsil_halt; auto|]. split; cbn; auto; discriminate.
+    - destruct (polled (Some k0) s) eqn:P; [apply nsil_halt; auto|]. apply nsil_push.
+      unfold take_gate. destruct (sGates s); cbn; auto. apply do_evs_run_ok; auto.
+    - apply spin_nsil; auto.
+  Qed.
+End NoSilent.
+
+(* ------------------------------------------------------------------ one invocation, code as it is *)
+Definition vm_ok (v : vm) : Prop :=
+  running v = false /\ H v <= MaxStack /\ FP v = 0 /\ (startCount v = 0 -> H v = 0).
+
+Lemma vm_ok_new e : vm_ok (fst (new_vm cfg_current e)).
+Proof. cbn. unfold vm_ok. cbn. repeat split; auto. apply Nat.le_0_l. Qed.
+
+Definition env1 (e : env) (c : nat) : env :=
+  arm c (ncells e) (mkEnv (cancelled e) (S (ncells e)) (setcells e) (watchers e) (fired e)).
+
+Lemma env1_run_ok e c : env_ok e -> run_ok (ncells e) c (env1 e c).
+Proof.
+  intros [A B]. split; [split|].
+  - intros w c' k X. cbn in *. destruct (Nat.lt_ge_cases w (length (watchers e))) as [L|L].
+    + rewrite nth_error_app1 in X by auto. apply A in X. lia.
+    + rewrite nth_error_app2 in X by auto. destruct (w - length (watchers e)) as [|n]; cbn in X.
+      * inv X. lia. * destruct n; discriminate.
+  - intros k X. unfold cell_set in *. cbn in *. destruct (B k X) as (w & c' & W & C).
+    exists w, c'. split; auto. rewrite nth_error_app1; auto. apply nth_error_Some. congruence.
+  - intros w c' X. cbn in X. destruct (Nat.lt_ge_cases w (length (watchers e))) as [L|L].
+    + rewrite nth_error_app1 in X by auto. apply A in X. lia.
+    + rewrite nth_error_app2 in X by auto. destruct (w - length (watchers e)) as [|n]; cbn in X.
+      * inv X. auto. * destruct n; discriminate.
+Qed.
+
+(* the state in which the code of an invocation starts, on a VM that is not running *)
+Definition start_st (e : env) (g : Z) (h f : nat) (i : inv) : st :=
+  mkSt g (env1 e (ictx i)) h f (igates i).
+
+Definition body_run (e : env) (i : inv) (s0 : st) : res * st :=
+  match iapi i with
+  | ACall => call_fn (Some (ncells e)) (ictx i) (eval cfg_current (Some (ncells e)) (ictx i) (ibody i)) s0
+  | _ => eval cfg_current (Some (ncells e)) (ictx i) (ibody i) s0
+  end.
+
+Definition base_h (v : vm) (i : inv) : nat :=
+  match iapi i with
+  | ARunCode => if 1 <? S (startCount v) then 0 else H v
+  | _ => H v
+  end.
+Definition base_f (v : vm) (i : inv) : nat := match iapi i with ACall => FP v | _ => 0 end.
+
+Lemma run_inv_current_eq e g v i :
+  running v = false ->
+  run_inv cfg_current e g v i =
+  let '(r, s1) := body_run e i (start_st e g (base_h v i) (base_f v i) i) in
+  (outcome_of r, sE s1, sG s1,
+   mkVm (Some (ncells e)) (match r with RDiverge => true | _ => false end) (S (startCount v)) (sH s1) (sFP s1)).
+Proof.
+  intros R. unfold run_inv, start. rewrite R.
+  unfold body_run, start_st, base_h, base_f, env1.
+  destruct (iapi i) eqn:EA; cbn -[eval call_fn Nat.ltb].
+  - destruct (1 <? S (startCount v)); cbn -[eval call_fn];
+      match goal with |- context [eval ?a ?b ?c ?d ?s] => destruct (eval a b c d s) as [r s1] end;
+      destruct r; reflexivity.
+  - match goal with |- context [eval ?a ?b ?c ?d ?s] => destruct (eval a b c d s) as [r s1] end;
+      destruct r; reflexivity.
+  - match goal with |- context [call_fn ?a ?b ?c ?s] => destruct (call_fn a b c s) as [r s1] end;
+      destruct r; reflexivity.
+Qed.
+
+Lemma body_run_good e i s0 :
+  sH s0 <= MaxStack ->
+  let r := fst (body_run e i s0) in let s1 := snd (body_run e i s0) in
+  sH s1 <= MaxStack /\ (r <> RDiverge -> sFP s1 = sFP s0).
+Proof.
+  intros A. unfold body_run. destruct (iapi i).
+  - pose proof (eval_good cfg_current eq_refl (Some (ncells e)) (ictx i) (ibody i) s0 A) as (G1 & G2 & _). auto.
+  - pose proof (eval_good cfg_current eq_refl (Some (ncells e)) (ictx i) (ibody i) s0 A) as (G1 & G2 & _). auto.
+  - pose proof (call_fn_good (Some (ncells e)) (ictx i) _ s0 A
+                  (eval_good cfg_current eq_refl (Some (ncells e)) (ictx i) (ibody i))) as (G1 & G2 & _). auto.
+Qed.
+
+Lemma body_run_nsil e i s0 :
+  run_ok (ncells e) (ictx i) (sE s0) -> nsil (ncells e) (ictx i) (body_run e i s0).
+Proof.
+  intros A. unfold body_run. destruct (iapi i).
+  - apply eval_nsil; auto. - apply eval_nsil; auto.
+  - apply call_fn_nsil; auto. intros t T. apply eval_nsil; auto.
+Qed.
+
+Lemma body_run_shift e i b s1 s2 :
+  rel b s1 s2 -> sH s1 <= MaxStack ->
+  shifted b (body_run e i s1) (body_run e i s2).
+Proof.
+  intros R A. unfold body_run. destruct (iapi i).
+  - apply eval_shift; auto. - apply eval_shift; auto.
+  - apply call_fn_shift; auto.
+    + intros t T. apply eval_good; auto.
+    + intros t1 t2 R' A'. apply eval_shift; auto.
+Qed.
+
+Definition fresh_of (e : env) (g : Z) (i : inv) : outcome :=
+  let '(o0, _, _, _) := run_inv cfg_current e g (mkVm None false 0 0 0) i in o0.
+Lemma fresh_outcome_of e g v i o : fresh_outcome cfg_current (mkObs e g v i o) = fresh_of e g i.
+Proof. reflexivity. Qed.
+
+(* what one invocation on a VM in a sane state does, compared with the same invocation on a new VM *)
+Lemma run_inv_current e g v i :
+  vm_ok v -> env_ok e ->
+  let '(o, e', g', v') := run_inv cfg_current e g v i in
+  (o = fresh_of e g i \/
+   (o = OErr EStack /\ iapi i <> ARunCode)) /\
+  o <> OStale /\ o <> OBusy /\ env_ok e' /\ (o <> ODiverge -> vm_ok v').
+Proof.
+  intros (V1 & V2 & V3 & V4) EO.
+  unfold fresh_of. change (mkVm None false 0 0 0) with (fst (new_vm cfg_current e)).
+  rewrite run_inv_current_eq by auto. rewrite run_inv_current_eq by reflexivity.
+  set (s_sh := start_st e g (base_h v i) (base_f v i) i).
+  set (s_fr := start_st e g (base_h (fst (new_vm cfg_current e)) i) (base_f (fst (new_vm cfg_current e)) i) i).
+  assert (Hsh : sH s_sh <= MaxStack).
+  { unfold s_sh, base_h. cbn -[Nat.ltb]. destruct (iapi i); auto. destruct (1 <? S (startCount v)); auto. apply Nat.le_0_l. }
+  assert (R : rel (sH s_sh) s_sh s_fr).
+  { unfold s_sh, s_fr, start_st, base_f. cbn. repeat split; auto.
+    - destruct (iapi i); auto.
+    - unfold base_h. cbn -[Nat.ltb]. destruct (iapi i); cbn -[Nat.ltb]; try reflexivity. }
+  pose proof (body_run_shift e i _ _ _ R Hsh) as SH. unfold shifted in SH.
+  pose proof (body_run_good e i s_sh Hsh) as (G1 & G2).
+  pose proof (body_run_nsil e i s_sh (env1_run_ok e (ictx i) EO)) as (N1 & N2).
+  assert (Hzero : iapi i = ARunCode -> s_sh = s_fr).
+  { intros X. unfold s_sh, s_fr, base_h, base_f. rewrite X. cbn -[Nat.ltb].
+    destruct (startCount v) eqn:SC; cbn; auto. rewrite V4; auto. }
+  destruct (body_run e i s_sh) as [r s1] eqn:E1. destruct (body_run e i s_fr) as [r0 s1'] eqn:E2.
+  cbn [fst snd] in *.
+  split; [|split; [|split; [|split]]].
+  - destruct (iapi i) eqn:EA.
+    + left. rewrite Hzero in E1 by auto. congruence.
+    + destruct SH as [SH|[SH _]]; [right; subst; split; [reflexivity|discriminate]|left; congruence].
+    + destruct SH as [SH|[SH _]]; [right; subst; split; [reflexivity|discriminate]|left; congruence].
+  - destruct r; cbn; congruence.
+  - destruct r; cbn; congruence.
+  - apply N2.
+  - intros D. assert (D' : r <> RDiverge) by (destruct r; cbn in D; congruence).
+    repeat split; cbn.
+    + destruct r; congruence.
+    + auto.
+    + rewrite G2 by auto. unfold s_sh, base_f. cbn. destruct (iapi i); auto.
+    + discriminate.
+Qed.
+
+(* ------------------------------------------------------------------ histories *)
+Lemma exec_current h : forall e g v b,
+  vm_ok v -> env_ok e -> In b (exec cfg_current e g v h) ->
+  (o_out b = fresh_outcome cfg_current b \/ (o_out b = OErr EStack /\ iapi (o_inv b) <> ARunCode)) /\
+  o_out b <> OStale /\ o_out b <> OBusy /\ vm_ok (o_vm b) /\ env_ok (o_env b).
+Proof.
+  induction h as [|it h IH]; intros e g v b V E I; [destruct I|].
+  destruct it as [x|i]; cbn [exec] in I.
+  - eapply (IH (do_ev x e) g v b V); [apply do_ev_ok; auto|exact I].
+  - pose proof (run_inv_current e g v i V E) as P.
+    destruct (run_inv cfg_current e g v i) as [[[o e'] g'] v'] eqn:ER.
+    destruct P as (P1 & P2 & P3 & P4 & P5).
+    destruct I as [I|I].
+    + subst b. rewrite fresh_outcome_of. cbn [o_out o_inv o_vm o_env]. auto.
+    + destruct o; try (eapply (IH e' g' v' b); [apply P5; discriminate|exact P4|exact I]). destruct I.
+Qed.
+
+Theorem independent_current g h b :
+  In b (exec0 cfg_current g h) ->
+  o_out b = fresh_outcome cfg_current b \/ (o_out b = OErr EStack /\ iapi (o_inv b) <> ARunCode).
+Proof.
+  intros I. unfold exec0 in I. cbn [new_vm per_run_flag cfg_current] in I.
+  eapply exec_current in I; [apply I| apply (vm_ok_new env0) | apply env_ok_0].
+Qed.
+
+Theorem runcode_independent g h b :
+  In b (exec0 cfg_current g h) -> iapi (o_inv b) = ARunCode -> o_out b = fresh_outcome cfg_current b.
+Proof.
+  intros I A. destruct (independent_current g h b I) as [X|[_ X]]; auto. congruence.
+Qed.
+
+Theorem guarded_independent g h b :
+  In b (exec0 cfg_current g h) -> o_out b <> OErr EStack -> o_out b = fresh_outcome cfg_current b.
+Proof.
+  intros I A. destruct (independent_current g h b I) as [X|[X _]]; auto. congruence.
+Qed.
+
+Theorem no_silent_halt g h b : In b (exec0 cfg_current g h) -> o_out b <> OStale /\ o_out b <> OBusy.
+Proof.
+  intros I. unfold exec0 in I. cbn [new_vm per_run_flag cfg_current] in I.
+  eapply exec_current in I; [|apply (vm_ok_new env0) | apply env_ok_0]. split; apply I.
+Qed.
+
+(* the state every invocation starts from: not running, frame 0, stack within bounds -
+   resumeFrame / resetForNewCode / stop() have put (running, fp, sp) back, whatever happened before *)
+Theorem restored_between_runs g h b : In b (exec0 cfg_current g h) -> vm_ok (o_vm b).
+Proof.
+  intros I. unfold exec0 in I. cbn [new_vm per_run_flag cfg_current] in I.
+  eapply exec_current in I; [|apply (vm_ok_new env0) | apply env_ok_0]. apply I.
+Qed.
